@@ -266,10 +266,24 @@ def one_load(ctx, ident, data, path, access, flag0, fault):
     return raised, info
 
 
-def semantic_variants(data):
+def semantic_variants(data, depth=0):
     """(name, bytes) files that fail for semantic reasons inside the load."""
     chunks = chunktools.parse(data)
     out = []
+    # the same failures inside nested containers (embedded project of a MetaModule, effect of a Sampler)
+    if depth < 3:
+        nested_done = 0
+        for i, (cid, payload) in enumerate(chunks):
+            if cid == b"CHDT" and payload[:4] in (b"SVOX", b"SSYN") and nested_done < 2:
+                try:
+                    inner = semantic_variants(payload, depth + 1)
+                except Exception:  # noqa: BLE001
+                    inner = []
+                for name, vb in inner[:3]:
+                    c2 = list(chunks)
+                    c2[i] = (cid, vb)
+                    out.append(("nested%d[%s]" % (i, name), chunktools.build(c2)))
+                nested_done += 1
     for i, (cid, payload) in enumerate(chunks):
         if cid == b"STYP":
             c2 = list(chunks)
